@@ -40,6 +40,8 @@ type Solver struct {
 	Time                   time.Duration
 	ErrSeen                string
 	TimeoutMS              int
+	QuickMS                int
+	Fallbacks              int
 	Log                    io.Writer
 	buf                    strings.Builder
 }
@@ -66,7 +68,7 @@ func NewSolver(bin string, tb *TB, timeoutMS int) (*Solver, error) {
 	if err := cmd.Start(); err != nil {
 		return nil, err
 	}
-	s := &Solver{cmd: cmd, in: in, out: bufio.NewReaderSize(out, 1<<16), Bin: bin, tb: tb, TimeoutMS: timeoutMS}
+	s := &Solver{cmd: cmd, in: in, out: bufio.NewReaderSize(out, 1<<16), Bin: bin, tb: tb, TimeoutMS: timeoutMS, QuickMS: 500}
 	s.resetBook()
 	if strings.HasPrefix(bin, "cvc5") {
 		s.send("(set-logic ALL)\n")
@@ -213,10 +215,29 @@ func (s *Solver) readLine() (string, error) {
 	return strings.TrimSpace(line), err
 }
 
-// Check runs check-sat.
+// Check runs check-sat: first the incremental core with a short time limit,
+// then (on unknown) a non-incremental tactic pipeline with the full limit —
+// z3's incremental mode skips solve-eqs and can take minutes on adder chains
+// that the tactic pipeline decides in milliseconds.
 func (s *Solver) Check() Result {
+	if strings.HasPrefix(s.Bin, "cvc5") {
+		return s.check1("(check-sat)\n", true)
+	}
+	s.send(fmt.Sprintf("(set-option :timeout %d)\n", s.QuickMS))
+	r := s.check1("(check-sat)\n", false)
+	if r == Unknown {
+		s.Fallbacks++
+		s.send(fmt.Sprintf("(set-option :timeout %d)\n", s.TimeoutMS))
+		r = s.check1("(check-sat-using (then simplify solve-eqs smt))\n", true)
+	}
+	// the limit must not apply to push/pop/assert (z3 reports "push canceled")
+	s.send("(set-option :timeout 4294967295)\n")
+	return r
+}
+
+func (s *Solver) check1(cmd string, final bool) Result {
 	t0 := time.Now()
-	s.send("(check-sat)\n")
+	s.send(cmd)
 	for {
 		line, err := s.readLine()
 		if err != nil {
@@ -235,7 +256,9 @@ func (s *Solver) Check() Result {
 			s.Time += time.Since(t0)
 			return Unsat
 		case "unknown", "timeout":
-			s.NUnknown++
+			if final {
+				s.NUnknown++
+			}
 			s.Time += time.Since(t0)
 			return Unknown
 		case "":
